@@ -247,8 +247,10 @@ class Earley:
             ]  # TODO: avoid list addition here as it is not constant time!
 
     def logp(self, x):
-        cols = self.chart(x)
         N = len(x)
+        if N == 0:  # the weight of the empty string is not in the (nullary-free) chart
+            return np.log(self(x))
+        cols = self.chart(x)
         return np.log(
             cols[N].c_chart.get((0, self.cfg.S), self.cfg.R.zero)
         ) - self.log_rescale(cols, 0, N)
